@@ -19,7 +19,7 @@ for _c, _f in [(X.GraphQLClientHttpError, ["status_code", "response"]),
     V.REG.register(_c, _f)
 
 # "errors member, when present, is spec-shaped: a list of objects each carrying a message"
-ERROR_OBJ = Pred(lambda e: z3.And(JSON.pred(e), V.is_VDict(e), has(e, "message")), "error object with message")
+ERROR_OBJ = Pred(lambda e: z3.And(JOBJ.pred(e), has(e, "message")), "error object with message")
 ERRORS = ListOf(ERROR_OBJ, name="all_error_objs")
 
 
